@@ -9,6 +9,10 @@ NOTE = ("Trusted: Lean 4.33 kernel; axioms propext, Classical.choice, Quot.sound
         "harness/translate.py; the correspondence check (differential testing, generator quality bounds what it sees). ")
 
 CHECKS = {
+    "C17": dict(
+        text="Proved on the selection model (sorted(results, key)[0] as a stable merge sort): any two completion orders select the same winner when the minimal key is unique (pickBest_perm), the selected key is minimal whatever the order, so tied runs can only differ among equal keys (pickBest_key_minimal, pickBest_keys_agree), ordered collection (imap/map) is schedule-free outright, and the two unordered stages of Z-HIT compose (zhit_two_stage). Tie: the real entry points run with the Pool replaced by an in-process pool that permutes completion order; the keys actually collected are sent to the model and its winner compared with the returned result; the theorem's hypothesis (unique minimum, no NaN keys) is measured. PARTIAL: determinism of worker code across processes, the OS scheduler and repeatability of the numerical code are checked on the implementation only (permuted in-process pools, real pools with several process counts, repetition, mock-data seeds).",
+        ref="§4 C17", tech=TECH_H,
+        note=NOTE + "multiprocessing and the OS scheduler are runtime; observed, not modelled."),
     "C02": dict(
         text="For every registered non-container element the Python body of _impedance and the sympified equation string are re-translated from /repo on every run into terms of one expression language, and `evalC impl = evalC eqn` is proved for ALL complex parameter values and frequencies (22 theorems <Sym>_impl_eq_eqn; all_elements_covered fails when an element has no theorem). General transmission line: the seven branch formulas (_eqNN vs the return expressions of _sympy) and the auxiliaries lm/cs/ct/s are re-translated and proved equal, the two if/elif decision trees are modelled and proved to select the same formula with the same roles, hence numeric = symbolic for ALL 3^5 configurations and all values (tlm_numeric_eq_symbolic). Ties: translator cross-check on every run (generated terms evaluated by the Lean driver at complex floats vs the Python kernels and sympy); the Tlm model is run against the real _impedance and to_sympy on all 243 configurations. PARTIAL: whole-circuit symbolic composition and the 0 Hz / infinite-frequency limits are decided by the direct oracle on the implementation only.",
         ref="§4 C02", tech=TECH_T,
